@@ -101,7 +101,7 @@ pub trait DateRoll {
     /// into a new month.
     fn roll_mod_forward_bus_day(&self, date: &NaiveDateTime) -> NaiveDateTime {
         let new_date = self.roll_forward_bus_day(date);
-        if new_date.month() != date.month() {
+        if (new_date.year(), new_date.month()) != (date.year(), date.month()) {
             self.roll_backward_bus_day(date)
         } else {
             new_date
@@ -112,7 +112,7 @@ pub trait DateRoll {
     /// into a new month.
     fn roll_mod_backward_bus_day(&self, date: &NaiveDateTime) -> NaiveDateTime {
         let new_date = self.roll_backward_bus_day(date);
-        if new_date.month() != date.month() {
+        if (new_date.year(), new_date.month()) != (date.year(), date.month()) {
             self.roll_forward_bus_day(date)
         } else {
             new_date
@@ -145,7 +145,7 @@ pub trait DateRoll {
     /// such date, without rolling into a new month.
     fn roll_forward_mod_settled_bus_day(&self, date: &NaiveDateTime) -> NaiveDateTime {
         let new_date = self.roll_forward_settled_bus_day(date);
-        if new_date.month() != date.month() {
+        if (new_date.year(), new_date.month()) != (date.year(), date.month()) {
             self.roll_backward_settled_bus_day(date)
         } else {
             new_date
@@ -156,7 +156,7 @@ pub trait DateRoll {
     /// into a new month.
     fn roll_backward_mod_settled_bus_day(&self, date: &NaiveDateTime) -> NaiveDateTime {
         let new_date = self.roll_backward_settled_bus_day(date);
-        if new_date.month() != date.month() {
+        if (new_date.year(), new_date.month()) != (date.year(), date.month()) {
             self.roll_forward_settled_bus_day(date)
         } else {
             new_date
